@@ -31,6 +31,16 @@ func (r *ExtRun) logf(format string, a ...interface{}) {
 
 type panicStruct struct{ S string }
 
+// evilErr is an error whose Error method fails on the nil pointer that is
+// thrown; evilStr a Stringer whose String method panics
+type evilErr struct{ msg string }
+
+func (e *evilErr) Error() string { return e.msg }
+
+type evilStr struct{ tok string }
+
+func (e evilStr) String() string { panic("String of " + e.tok) }
+
 // maybePanic logs the hook and panics if the plan says so. It returns true when
 // the plan asks for a nil finish function.
 func (r *ExtRun) hook(ext, hook, path, info string) (nilFinish bool) {
@@ -73,6 +83,10 @@ func (r *ExtRun) hook(ext, hook, path, info string) (nilFinish bool) {
 		panic(tok)
 	case "int":
 		panic(num)
+	case "evilerr":
+		panic((*evilErr)(nil))
+	case "evilstr":
+		panic(evilStr{tok: tok})
 	default:
 		panic(panicStruct{S: tok})
 	}
